@@ -71,14 +71,14 @@ Proof. exact add_error_noop. Qed.
 Print Assumptions C07_refused_add_is_noop.
 
 (* non-vacuity with trajectories of different sizes: in memory (capacity 10) sizes 4, 4 fit, 4 is refused (full),
-   11 is refused (too large), 2 still fits and gets index 2; file-backed with a cache of 5: 2 accepted, 9 refused
-   (too large), 3 accepted with index 1; a reopen shows two items *)
+   11 is refused (too large), 2 still fits and gets index 2; file-backed with a cache of 5: sizes 2, 9, 3 are ALL
+   accepted (9 is written without being cached) and read back; a reopen shows three items *)
 Example C07_refusals_with_sizes_nonvacuous :
   hist_ok (abs empty_world) hist_sizes /\
   snd (run fixed_cfg empty_world hist_sizes) =
   [OUnit; OIdx 0; OIdx 1; OErr EFull; OErr ETooLarge; OIdx 2; OLen 3; OItem 4; OErr EIndex; OUnit;
-   OUnit; OIdx 0; OErr ETooLarge; OIdx 1; OLen 2; OUnit; OItem 5; OErr EIndex; OUnit;
-   OUnit; OLen 2; OItems [5; 7]%Z None; OUnit] /\
+   OUnit; OIdx 0; OIdx 1; OIdx 2; OLen 3; OUnit; OItem 5; OItem 7; OUnit;
+   OUnit; OLen 3; OItems [5; 6; 7]%Z None; OUnit] /\
   snd (spec_run (abs empty_world) hist_sizes) = snd (run fixed_cfg empty_world hist_sizes).
 Proof. exact hist_sizes_outputs. Qed.
 
@@ -112,6 +112,27 @@ Example C07_iterators_nonvacuous :
    OUnit; OItem 0; OUnit; OItem 0; OIdx 3; OUnit; OItem 2; OItem 3; OStop; OUnit] /\
   snd (spec_run (abs empty_world) hist_iters) = snd (run fixed_cfg empty_world hist_iters).
 Proof. exact hist_iters_outputs. Qed.
+
+(* "regardless of how small the in-memory cache is", for reads (FC07a) and for additions to a file-backed store (FC07b):
+   items carry their size on the read path ([isize]) and handles their cache capacity; in the specification neither
+   reads nor file-backed additions depend on the capacity at all, so C07_store_refines_list is the theorem.  As found: *)
+Theorem C07_oversized_read_before_fix_refuted :
+  snd (run cfg_C07a empty_world hist_C07a)
+  = [OUnit; OIdx 0; OIdx 1; OIdx 2; OUnit; OUnit; OItem 5; OErr ETooLarge; OItem 7; OItems [5]%Z (Some ETooLarge); OUnit] /\
+  snd (run fixed_cfg empty_world hist_C07a)
+  = [OUnit; OIdx 0; OIdx 1; OIdx 2; OUnit; OUnit; OItem 5; OItem 6; OItem 7; OItems [5; 6; 7]%Z None; OUnit] /\
+  snd (spec_run (abs empty_world) hist_C07a) = snd (run fixed_cfg empty_world hist_C07a).
+Proof. exact oversized_read_refuted. Qed.
+Print Assumptions C07_oversized_read_before_fix_refuted.
+
+Theorem C07_oversized_add_before_fix_refuted :
+  snd (run cfg_C07b empty_world hist_C07b)
+  = [OUnit; OIdx 0; OErr ETooLarge; OIdx 1; OLen 2; OItem 7; OUnit; OUnit; OItems [5; 7]%Z None; OUnit] /\
+  snd (run fixed_cfg empty_world hist_C07b)
+  = [OUnit; OIdx 0; OIdx 1; OIdx 2; OLen 3; OItem 6; OUnit; OUnit; OItems [5; 6; 7]%Z None; OUnit] /\
+  snd (spec_run (abs empty_world) hist_C07b) = snd (run fixed_cfg empty_world hist_C07b).
+Proof. exact oversized_add_refuted. Qed.
+Print Assumptions C07_oversized_add_before_fix_refuted.
 
 (* locating an index through the cumulative size table = indexing the concatenation (every seam) *)
 Theorem C07_size_table_lookup_is_concat_index :
